@@ -43,6 +43,12 @@ def main():
             others = {p: v for p, v in res.items() if p != own and p != "error"}
             print(sid, "own:", "CAUGHT" if own in res else "missed", "others:", json.dumps(others)[:1500], flush=True)
             rows.append((sid, own in res, others))
+    cache_path = os.path.join(VERIF, "seeded", "cross_rows.json")
+    cache = json.load(open(cache_path)) if os.path.exists(cache_path) else {}
+    for sid, own, others in rows:
+        cache[sid] = [sid, own, others]
+    json.dump(cache, open(cache_path, "w"), indent=0, sort_keys=True)
+    rows = [tuple(cache[k]) for k in sorted(cache) if os.path.isdir(os.path.join(VERIF, "seeded", k))]
     with open(os.path.join(VERIF, "seeded", "CROSS.md"), "w") as f:
         f.write("# Every seed against every check (tools/seed_cross.py)\n\n| seed | own check | other checks that report it (rule: first line) |\n|---|---|---|\n")
         for sid, own, others in rows:
